@@ -52,6 +52,8 @@ def run(ctx, chk):
     s7s8(fb, chk)
     s9(fb, chk)
     s11(fb, chk)
+    from . import xlist
+    xlist.apply("C08", fb, chk)
     n = lambda r: len([i for i in chk.instances if i[0] == r])
     chk.floor("S1", n("S1"), 7)
     chk.floor("S2", n("S2"), 4)
@@ -96,8 +98,10 @@ def loop_shape(fb, chk, rule, f, inner_name, counter_desc):
         if f.blocks[bi]["cleanup"] or bi not in cfg.live_blocks():
             continue
         atoms = m.atoms_at(bi)
-        okc = any(a[0] == "ok" and server.same_call(a[1], call) for a in atoms)
-        zero = any(a[0] == "in" and not a[3] and a[2] == frozenset([0]) and any(server.same_call(s, call) for s in subterms(a[1]) if s[0] == "call")
+        okc = any((a[0] == "ok" and server.same_call(a[1], call)) or
+                  (a[0] == "variant" and not a[3] and set(a[2]) == {"Ok"} and a[1][0] == "call" and server.same_call(a[1], call)) for a in atoms)
+        zero = any((a[0] == "in" and not a[3] and a[2] == frozenset([0]) and any(server.same_call(s, call) for s in subterms(a[1]) if s[0] == "call")) or
+                   (a[0] == "cmp" and a[1] == "Eq" and a[3][0] == "const" and a[3][1] == 0 and _is_count(a[2], call))
                    for a in atoms)
         if okc and zero and bb not in cfg.reach(bi):
             zero_exit = True
@@ -162,8 +166,25 @@ def _payload_of(term, call):
         if t[0] in ("unwrap", "down", "deref", "ref") or (t[0] == "field" and t[2] in ("0",) and t[1][0] in ("down",)):
             t = t[1]
             continue
+        if t[0] == "call" and t[1] in ("map_err", "or_else") and len(t[2]) == 2:
+            t = t[2][0]          # the Ok payload passes through unchanged
+            continue
         return False
     return False
+
+
+def _ok_payloads(t):
+    """The payload term(s) of `x?` / `x.unwrap()` when x is (a merge containing) an `Ok(v)` / `Some(v)` built in this body."""
+    if t[0] == "field" and t[2] == "0" and t[1][0] == "down" and t[1][2] in ("Ok", "Some"):
+        x = t[1][1]
+    elif t[0] == "unwrap":
+        x = t[1]
+    else:
+        return []
+    while x[0] in ("ref", "deref"):
+        x = x[1]
+    alts = x[2] if x[0] == "phi" else [x]
+    return [a[3][0][1] for a in alts if a[0] == "agg" and a[2] in ("Ok", "Some") and len(a[3]) == 1]
 
 
 def count_uses(f, m, bb):
@@ -178,7 +199,7 @@ def count_uses(f, m, bb):
                 t = m.sym.rvalue(d[3])
             except RecursionError:
                 continue
-            if t[0] == "field" and t[2] == "0" and _payload_of(t[1], call):
+            if _is_count(t, call):
                 uses.append((l, d[1], t))
     return call, uses
 
@@ -212,6 +233,25 @@ def s7s8(fb, chk):
                         work.append(p_)
             if bb in body and (inloop is None or len(body) < len(inloop[1])):
                 inloop = (head, body)
+        if inloop is not None:
+            # one loop may have several back edges (`continue` on retry, the normal end of the body): its body is their union
+            hd = inloop[0]
+            merged = set(inloop[1])
+            for (tail, head) in cfg.back_edges():
+                if head != hd:
+                    continue
+                body = {head, tail}
+                work = [tail]
+                while work:
+                    x = work.pop()
+                    if x == head:
+                        continue
+                    for p_ in cfg.pred[x]:
+                        if p_ not in body:
+                            body.add(p_)
+                            work.append(p_)
+                merged |= body
+            inloop = (hd, merged)
         if inloop is None:
             continue
         head, body = inloop
@@ -280,6 +320,34 @@ def s9(fb, chk):
     chk.floor("S9", n, 12)
 
 
+def _err_wrap_blocks(f, lhs):
+    """Blocks where the local assigned by `lhs` (followed through plain moves) is wrapped into `Err(..)`."""
+    if lhs["p"]:
+        return []
+    locs = {lhs["l"]}
+    out = []
+    for _ in range(4):
+        grew = False
+        for bi, b in enumerate(f.blocks):
+            if b["cleanup"]:
+                continue
+            for st in b["stmts"]:
+                if st["k"] != "assign":
+                    continue
+                rv = st["rv"]
+                if rv["k"] == "use" and rv["op"]["k"] in ("copy", "move") and not rv["op"]["pl"]["p"] and rv["op"]["pl"]["l"] in locs \
+                        and not st["lhs"]["p"] and st["lhs"]["l"] not in locs:
+                    locs.add(st["lhs"]["l"])
+                    grew = True
+                if rv["k"] == "agg" and rv.get("variant") == "Err" and any(o["k"] in ("copy", "move") and not o["pl"]["p"] and o["pl"]["l"] in locs
+                                                                          for o in rv["ops"]):
+                    if bi not in out:
+                        out.append(bi)
+        if not grew:
+            break
+    return out
+
+
 def s11(fb, chk):
     """`Disconnected` means: the stream ended exactly at a message boundary.  It may be produced only by a message-level
     receiver of the endpoint, for a receive that is the first one of that function, under the fact `0 bytes`."""
@@ -299,7 +367,13 @@ def s11(fb, chk):
                     continue
                 n += 1
                 m = m or must_of(fb, f)
-                atoms = m.atoms_at(bi)
+                # the point where the value becomes the function's error result: the `Err(..)` it is wrapped into (the value
+                # may be built ahead of the test, e.g. as the argument of an `ensure(cond, err)?` helper)
+                use_blocks = _err_wrap_blocks(f, st["lhs"]) or [bi]
+                atoms = None
+                for ub in use_blocks:
+                    au = m.atoms_at(ub)
+                    atoms = au if atoms is None else [a for a in atoms if a in au]
                 recvs = [(bb, t, c) for bb, t, c in sites(f, name=set(RECV_PRIMS))]
                 dom = m.cfg.dominators()
                 ok = False
@@ -322,10 +396,13 @@ def s11(fb, chk):
     chk.floor("S11", n, 1)
 
 
-def _is_count(t, call):
+def _is_count(t, call, depth=0):
     while t[0] == "cast":
         t = t[1]
-    return t[0] == "field" and t[2] == "0" and _payload_of(t[1], call)
+    if t[0] == "field" and t[2] == "0" and _payload_of(t[1], call):
+        return True
+    # the count handed on through `Ok(count)` by an expanded helper and taken out again with `?`
+    return depth < 3 and any(_is_count(p, call, depth + 1) for p in _ok_payloads(t))
 
 
 def _accumulates(m, term, call):
@@ -530,6 +607,15 @@ def s5(fb, chk):
             if not raw and any(k in looping for k in calls):
                 looping.add(f.key)
                 changed = True
+    # every receiver of a message part (header, body, payload) reassembles segments: a reply or request that the transport
+    # delivers in several pieces is still one message
+    for name in ("recv_header", "recv_body", "recv_body_into_buf", "recv_payload", "recv_payload_into_buf", "recv_data"):
+        f = ep.get(name)
+        if f is None:
+            continue
+        chk.check(f.key in looping, "S5", "part-receiver:" + name, "%s receives through a looping receiver" % name,
+                  "Endpoint::%s reads its part of the message with a single receive: a well-formed message delivered in two "
+                  "segments is rejected (PartialMessage / InvalidMessage)" % name, f.loc())
     for srv in ("BackendReqHandler", "FrontendReqHandler"):
         hr = common.dispatch_fn(fb, srv)
         m = must_of(fb, hr)
